@@ -648,7 +648,17 @@ func runC13Race(c *Cfg) {
 							}
 						}()
 						k := linKey(rg.IntN(3))
-						switch rg.IntN(22) {
+						switch rg.IntN(24) {
+						case 22: // a nested map value replaced through Merge: the store holds the NEW map, readers of the old one are not disturbed
+							store.Merge(map[string]any{"cfg": map[string]any{"v": i, fmt.Sprint("f", i%7): i}})
+						case 23: // a reader keeps looking at a map value the store handed out
+							if m := store.GetMap("cfg"); m != nil {
+								for kk, vv := range m {
+									if kk == "" && vv == nil {
+										sink++
+									}
+								}
+							}
 						case 0, 1, 2:
 							store.Set(k, i)
 						case 3:
